@@ -100,7 +100,7 @@ func benignSite(c ssa.CallInstruction, callee *ssa.Function) string {
 	switch {
 	case caller == "datatype.init":
 		return "construction time: the datatype is not shared yet"
-	case caller == "datatype.SubscribeOrCreate" && callee.Name() == "DeliverTransaction":
+	case caller == "datatype.SubscribeOrCreate" && oldFuncName(callee) == "DeliverTransaction":
 		if len(c.Common().Args) > 0 {
 			if k, ok := c.Common().Args[len(c.Common().Args)-1].(*ssa.Const); ok && k.Value == nil {
 				return "DeliverTransaction(nil): the append loop over the nil transaction does not run"
@@ -166,7 +166,7 @@ func ruleR20_1(w *World, r *Report) {
 	found := map[string]*acc{}
 	held := 0
 	for f := range lc.safe {
-		if strings.HasPrefix(f.Name(), "New") || f.Name() == "init" || pureAccessor(f) {
+		if strings.HasPrefix(f.Name(), "New") || oldFuncName(f) == "init" || pureAccessor(f) {
 			continue
 		}
 		forEachInstr(f, func(in ssa.Instruction) {
@@ -194,14 +194,47 @@ func ruleR20_1(w *World, r *Report) {
 			found[k].n++
 		})
 	}
+	// group the accesses: the functions of the sync path (everything the manager's goroutines enter
+	// through the WiredDatatype interface) form one family per field
+	var roots []*ssa.Function
+	for _, n := range []string{"CreatePushPullPack", "ApplyPushPullPack", "NeedPull", "NeedPush", "SetCheckPoint", "ResetWired", "ReceiveRemoteModelOperations"} {
+		if f := u.Fn(pDatatypes, "WiredDatatype", n); f != nil {
+			roots = append(roots, f)
+		}
+	}
+	syncPath := lc.v.reach(roots, func(f *ssa.Function) bool {
+		n := fnName(f)
+		return n == "TransactionDatatype.BeginTransaction" || n == "TransactionDatatype.EndTransaction" || n == "TransactionDatatype.unlock"
+	})
+	grouped := map[string]*acc{}
+	for _, a := range found {
+		name := fnName(a.fn)
+		key := name + "/" + a.field
+		switch {
+		case name == "TransactionDatatype.BeginTransaction" || name == "TransactionDatatype.unlock":
+		default:
+			if _, ok := syncPath[a.fn]; ok {
+				key = "sync path/" + a.field
+			}
+		}
+		if g := grouped[key]; g == nil {
+			c := *a
+			grouped[key] = &c
+		} else {
+			g.n += a.n
+			if a.pos < g.pos {
+				g.pos = a.pos
+			}
+		}
+	}
 	var ks []string
-	for k := range found {
+	for k := range grouped {
 		ks = append(ks, k)
 	}
 	sort.Strings(ks)
 	for _, k := range ks {
-		a := found[k]
-		r.Bad(k+" without the datatype lock", a.pos, fmt.Sprintf("%s accesses %s (%d site(s)) where the datatype mutex is not held: it runs concurrently with a transaction of another goroutine", fnName(a.fn), a.field, a.n))
+		a := grouped[k]
+		r.Bad(k+" without the datatype lock", a.pos, fmt.Sprintf("%s is accessed (%d site(s), first in %s) where the datatype mutex is not held: it runs concurrently with a transaction of another goroutine", a.field, a.n, fnName(a.fn)))
 	}
 	r.OK("accesses under the lock", "", fmt.Sprintf("%d accesses of guarded fields are inside the lock brackets", held))
 	// explicit ordering facts the brackets rest on
